@@ -544,10 +544,12 @@ func c03AcceptCheckKey(rep *Report, fixedKey string, src []byte, o int, want str
 		}
 	default:
 		if got := c03AstString(ast); got != want {
-			if c03NoEmpty(got) == c03NoEmpty(want) {
-				// `a <newline> ; b`: the grammar reads the ';' as the end of the first statement; the parser does
-				// not take a ';' that follows a line break and then parses it as an EmptyStatement
-				rep.Violate("c03-tree:empty-statements", fmt.Sprintf("the tree differs from the grammar's in EmptyStmt nodes only: %q: got %s want %s", src, got, want), map[string]interface{}{"src": string(src), "opts": o, "got": got, "expected": want})
+			if c03SameLineSemicolonOnly(src, o, got, want) {
+				// a ';' that stands on the line of a statement it does not belong to (after a block, a declaration, a
+				// labelled / if / loop statement, another ';') is an EmptyStatement; the tail of parseStmt swallows it
+				rep.Violate("c03-tree:empty-statement-same-line", fmt.Sprintf("an EmptyStatement `;` on the line of the preceding statement is dropped: %q: got %s want %s", src, got, want), map[string]interface{}{"src": string(src), "opts": o, "got": got, "expected": want})
+			} else if c03ExportDeclSemicolonOnly(src, o, got, want) {
+				rep.Violate("c03-tree:empty-statement-after-export-declaration", fmt.Sprintf("an EmptyStatement `;` after an exported function / class declaration is dropped: %q: got %s want %s", src, got, want), map[string]interface{}{"src": string(src), "opts": o, "got": got, "expected": want})
 			} else if fixedKey != "" {
 				rep.Violate(fixedKey, fmt.Sprintf("wrong tree for %q: got %s want %s", src, got, want), map[string]interface{}{"src": string(src), "opts": o, "got": got, "expected": want})
 			} else {
@@ -556,6 +558,55 @@ func c03AcceptCheckKey(rep *Report, fixedKey string, src []byte, o int, want str
 		}
 	}
 	rep.Eval(fmt.Sprintf("%s:%q/%d", bucket, src, o), nontrivial, bucket)
+}
+
+// c03SameLineSemicolonOnly: got lacks EmptyStmt nodes of want and is otherwise equal, and the parser gives exactly
+// want when every ';' of src is moved to a line of its own (a line break is allowed before every ';').  The byte-level
+// replacement also hits a ';' inside a literal or comment; the tree then differs and the answer is no (reported as an
+// ordinary violation).
+func c03SameLineSemicolonOnly(src []byte, o int, got, want string) bool {
+	if c03NoEmpty(got) != c03NoEmpty(want) || strings.Count(got, "Stmt()") >= strings.Count(want, "Stmt()") {
+		return false
+	}
+	ast, err, pan := c03ParseJS(bytes.ReplaceAll(src, []byte(";"), []byte("\n;")), o)
+	return pan == nil && err == nil && c03AstString(ast) == want
+}
+
+// c03ExportDeclSemicolonOnly: the remaining difference is an EmptyStatement `;` after `export function ...{}`,
+// `export class ...{}` or `export default function/class ...{}`: those are declarations, not terminated by ';', but
+// the tail of parseStmt takes a ';' after every ExportStmt (on the same line and, since 5e610dc, on the next line too).
+func c03ExportDeclSemicolonOnly(src []byte, o int, got, want string) bool {
+	if c03NoEmpty(got) != c03NoEmpty(want) || strings.Count(got, "Stmt()") >= strings.Count(want, "Stmt()") {
+		return false
+	}
+	ast, err, pan := c03ParseJS(bytes.ReplaceAll(src, []byte(";"), []byte("\n;")), o)
+	if pan != nil || err != nil {
+		return false
+	}
+	// the top-level items of want, without the first Stmt() after each export declaration
+	var items []string
+	depth, start := 0, 0
+	for i := 0; i <= len(want); i++ {
+		if i == len(want) || want[i] == ' ' && depth == 0 {
+			items = append(items, want[start:i])
+			start = i + 1
+		} else if want[i] == '(' {
+			depth++
+		} else if want[i] == ')' {
+			depth--
+		}
+	}
+	var kept []string
+	dropped := false
+	for i, it := range items {
+		if it == "Stmt()" && i > 0 && (strings.HasPrefix(items[i-1], "Stmt(export Decl(function") || strings.HasPrefix(items[i-1], "Stmt(export Decl(async function") ||
+			strings.HasPrefix(items[i-1], "Stmt(export Decl(class") || strings.HasPrefix(items[i-1], "Stmt(export default Decl(")) {
+			dropped = true
+			continue
+		}
+		kept = append(kept, it)
+	}
+	return dropped && c03AstString(ast) == strings.Join(kept, " ")
 }
 
 // c03FixedPrograms: programs whose tree was worked out by hand from the grammar (regular expressions vs division,
@@ -624,17 +675,48 @@ func c03Fixed(rep *Report) {
 		c03AcceptCheck(rep, []byte("(a,b,)=>a"), o, "Stmt(Params(Binding(a), Binding(b)) => Stmt({ Stmt(return a) }))", "fixed", true)
 		c03AcceptCheck(rep, []byte("async(a,)"), o, "Stmt(async(a))", "fixed", true)
 		c03AcceptCheck(rep, []byte("f(a,)"), o, "Stmt(f(a))", "fixed", true)
+		// a ';' after a line break ends the statement it follows when that statement is terminated by ';' (5e610dc) ...
 		c03AcceptCheck(rep, []byte("a\n;b"), o, "Stmt(a) Stmt(b)", "fixed", true)
+		c03AcceptCheck(rep, []byte("do a\n;while(b)"), o, "Stmt(do Stmt(a) while b)", "fixed", true)
+		c03AcceptCheck(rep, []byte("if(a)b\n;else c"), o, "Stmt(if a Stmt(b) else Stmt(c))", "fixed", true)
+		c03AcceptCheck(rep, []byte("var a\n;b"), o, "Decl(var Binding(a)) Stmt(b)", "fixed", true)
+		c03AcceptCheck(rep, []byte("throw a\n;b"), o, "Stmt(throw a) Stmt(b)", "fixed", true)
+		c03AcceptCheck(rep, []byte("debugger\n;a"), o, "Stmt(debugger) Stmt(a)", "fixed", true)
+		// ... and is an EmptyStatement after a statement that is not
+		c03AcceptCheck(rep, []byte("{}\n;a"), o, "Stmt({ }) Stmt() Stmt(a)", "fixed", true)
+		c03AcceptCheck(rep, []byte(";\n;"), o, "Stmt() Stmt()", "fixed", true)
+		c03AcceptCheck(rep, []byte("l: x\n;\n;b"), o, "Stmt(l : Stmt(x)) Stmt() Stmt(b)", "fixed", true)
+		// the same on the line of the preceding statement: dropped (known finding)
 		c03AcceptCheck(rep, []byte("{};a"), o, "Stmt({ }) Stmt() Stmt(a)", "fixed", true)
-		// `async` followed by a line break is not the async modifier: a method / field named async
-		c03AcceptCheckKey(rep, "c03-tree:class-async-newline", []byte("class A{static async\n(a){}}"), o, "Decl(class A Method(static async Params(Binding(a)) Stmt({ })))", "fixed", true)
-		c03AcceptCheckKey(rep, "c03-tree:class-async-newline", []byte("class A{async\nm(){}}"), o, "Decl(class A Field(async) Method(m Params() Stmt({ })))", "fixed", true)
-		// Initializer[+In] / ComputedPropertyName[+In] inside a binding pattern, also in the head of a for statement
-		c03AcceptCheckKey(rep, "c03-accept:in-inside-for-binding-pattern", []byte("for(var[a=b in c]of d);"), o, "Stmt(for Decl(var Binding([ Binding(a = (b in c)) ])) of d Stmt({ }))", "fixed", true)
-		c03AcceptCheckKey(rep, "c03-accept:in-inside-for-binding-pattern", []byte("for(let{[a in b]:c}=d;;);"), o, "Stmt(for Decl(let Binding({ [a in b]: Binding(c) } = d)) ; ; Stmt({ }))", "fixed", true)
-		// a string property name that is not a canonical number is not that number
-		c03AcceptCheckKey(rep, "c03-tree:string-property-name-as-number", []byte("x={'1.0':1}"), o, "Stmt(x={'1.0': 1})", "fixed", true)
-		c03AcceptCheckKey(rep, "c03-tree:string-property-name-as-number", []byte("x={'.5':1}"), o, "Stmt(x={'.5': 1})", "fixed", true)
+		c03AcceptCheck(rep, []byte(";;"), o, "Stmt() Stmt()", "fixed", true)
+		c03AcceptCheck(rep, []byte("l: x;;"), o, "Stmt(l : Stmt(x)) Stmt()", "fixed", true)
+		c03AcceptCheck(rep, []byte("if(a);;b"), o, "Stmt(if a Stmt()) Stmt() Stmt(b)", "fixed", true)
+		c03AcceptCheck(rep, []byte("function f(){};a"), o, "Decl(function f Params() Stmt({ })) Stmt() Stmt(a)", "fixed", true)
+		if o&2 == 0 { // module items are not allowed with Options.Inline
+			// after an exported declaration also on the next line (known finding; `export {a} <newline> ;` and
+			// `export default a <newline> ;` are terminated by the ';')
+			c03AcceptCheck(rep, []byte("export function f(){}\n;a"), o, "Stmt(export Decl(function f Params() Stmt({ }))) Stmt() Stmt(a)", "fixed", true)
+			c03AcceptCheck(rep, []byte("export default class{}\n;"), o, "Stmt(export default Decl(class)) Stmt()", "fixed", true)
+			c03AcceptCheck(rep, []byte("var a;export {a}\n;b"), o, "Decl(var Binding(a)) Stmt(export { a }) Stmt(b)", "fixed", true)
+			c03AcceptCheck(rep, []byte("export default a\n;b"), o, "Stmt(export default a) Stmt(b)", "fixed", true)
+		}
+		// `async` followed by a line break is not the async modifier: a method / field named async (5ec8a83)
+		c03AcceptCheck(rep, []byte("class A{static async\n(a){}}"), o, "Decl(class A Method(static async Params(Binding(a)) Stmt({ })))", "fixed", true)
+		c03AcceptCheck(rep, []byte("class A{async\nm(){}}"), o, "Decl(class A Field(async) Method(m Params() Stmt({ })))", "fixed", true)
+		c03AcceptCheck(rep, []byte("class A{static async\nm(){}}"), o, "Decl(class A Field(static async) Method(m Params() Stmt({ })))", "fixed", true)
+		c03AcceptCheck(rep, []byte("class A{async\n*m(){}}"), o, "Decl(class A Field(async) Method(* m Params() Stmt({ })))", "fixed", true)
+		c03AcceptCheck(rep, []byte("class A{async\n=1}"), o, "Decl(class A Field(async = 1))", "fixed", true)
+		c03AcceptCheck(rep, []byte("class A{async\n}"), o, "Decl(class A Field(async))", "fixed", true)
+		c03AcceptCheck(rep, []byte("class A{async\n[m](){}}"), o, "Decl(class A Field(async) Method([m] Params() Stmt({ })))", "fixed", true)
+		c03AcceptCheck(rep, []byte("class A{async\nstatic m(){}}"), o, "Decl(class A Field(async) Method(static m Params() Stmt({ })))", "fixed", true)
+		c03AcceptCheck(rep, []byte("class A{get\nm(){}}"), o, "Decl(class A Method(get m Params() Stmt({ })))", "fixed", true)
+		// Initializer[+In] / ComputedPropertyName[+In] inside a binding pattern, also in the head of a for statement (4c9b0c4)
+		c03AcceptCheck(rep, []byte("for(var[a=b in c]of d);"), o, "Stmt(for Decl(var Binding([ Binding(a = (b in c)) ])) of d Stmt({ }))", "fixed", true)
+		c03AcceptCheck(rep, []byte("for(let{[a in b]:c}=d;;);"), o, "Stmt(for Decl(let Binding({ [a in b]: Binding(c) } = d)) ; ; Stmt({ }))", "fixed", true)
+		// a string property name that is not a canonical number is not that number (ddc1c0d)
+		c03AcceptCheck(rep, []byte("x={'1.0':1}"), o, "Stmt(x={'1.0': 1})", "fixed", true)
+		c03AcceptCheck(rep, []byte("x={'.5':1,'1.':2,'01':3,'1e3':4,'1234567890123456':5}"), o, "Stmt(x={'.5': 1, '1.': 2, '01': 3, '1e3': 4, '1234567890123456': 5})", "fixed", true)
+		c03AcceptCheck(rep, []byte("x={'1.5':1,'10':2,'0':3,'123456789012345':4}"), o, "Stmt(x={1.5: 1, 10: 2, 0: 3, 123456789012345: 4})", "fixed", true)
 		c03AcceptCheck(rep, []byte("x={'s':1,'12':2,'a b':3}"), o, "Stmt(x={s: 1, 12: 2, 'a b': 3})", "fixed", true)
 		c03AcceptCheck(rep, []byte("a+b*c"), o, "Stmt(a+(b*c))", "fixed", true)
 		c03AcceptCheck(rep, []byte("a<<b+c"), o, "Stmt(a<<(b+c))", "fixed", true)
@@ -651,7 +733,11 @@ func c03Fixed(rep *Report) {
 	rejectCheckFixed("var-then-let-in-block", "{var a;let a}")
 	rejectCheckFixed("var-then-let-in-block", "{function a(){}let a}")
 	rejectCheckFixed("private-name-twice", "class A{#a;#a}")
-	for _, s := range []string{"let a;let a", "let a;{var a}", "function f(a){let a}", "(a,)", "x=(a,b,)", "f((a,))", "(a,\n)", "(a,)\n=>a", "-a**b", "-(++a)**b", "a??b||c", "a||b??c", "a&&b??c", "a??b&&c", "a+b=c", "(a", "a)", "a[b", "a]", "f(a", "{a"} {
+	// the dropped same-line ';' (c03-tree:empty-statement-same-line) where exactly one statement is allowed
+	rejectCheckFixed("empty-statement-same-line", "if(a);;else b")
+	rejectCheckFixed("empty-statement-same-line", "do{};while(a)")
+	rejectCheckFixed("empty-statement-same-line", "if(a){};else b")
+	for _, s := range []string{"let a;let a", "let a;{var a}", "function f(a){let a}", "(a,)", "x=(a,b,)", "f((a,))", "(a,\n)", "(a,)\n=>a", "-a**b", "-(++a)**b", "for(var[a]=b in c;;);", "for(var a=b in c;;);", "if(a)b;;else c", "a??b||c", "a||b??c", "a&&b??c", "a??b&&c", "a+b=c", "(a", "a)", "a[b", "a]", "f(a", "{a"} {
 		kind := "fixed"
 		if strings.Contains(s, ",)") || strings.Contains(s, ",\n)") {
 			kind = "paren-trailing-comma"
@@ -712,7 +798,7 @@ func c03RejectCheck(rep *Report, kind string, src []byte) {
 			rep.Violate("c03-panic:"+string(src), fmt.Sprintf("js.Parse panics on %q: %v", src, pan), map[string]interface{}{"src": string(src), "opts": o})
 		} else if err == nil {
 			key := "c03-reject:" + kind + ":" + string(src)
-			if kind == "private-name-twice" || kind == "var-then-let-in-block" {
+			if kind == "private-name-twice" || kind == "var-then-let-in-block" || kind == "empty-statement-same-line" {
 				key = "c03-reject:" + kind // one stable key: every instance is the same defect
 			}
 			rep.Violate(key, fmt.Sprintf("ill-formed program accepted (%s): %q parsed as %s", kind, src, c03AstString(ast)), map[string]interface{}{"src": string(src), "opts": o})
